@@ -104,17 +104,18 @@ var all5 = []int{clsConsensus, clsScheduler, clsEvm, clsValset, clsOther}
 
 func configs(tier string) []config {
 	if tier == "thorough" {
-		// Sequence counts (exact, from the enabledness rule): t1 26.5e6, t2 22.7e6,
-		// t3 5.9e6, t4 56.2e6, t5 39.7e6, t6 236e6 (t6 cannot finish inside the
-		// budget at ~1.6e5 sequences/s on 16 idle cores and is capped; its
-		// lengths <= 4 are t3). Share is the cumulative deadline; unused time
-		// rolls over to the next alphabet.
+		// Cheapest first, so that a slow machine still completes as many alphabets
+		// as possible. Exact sequence counts (from the enabledness rule): t1 5.9e6,
+		// t2 22.7e6, t3 26.5e6, t4 39.7e6, t5 56.2e6, t6 230e6 more (t6 = length 5
+		// of t1's alphabet; it cannot finish inside the budget at ~1.6e5
+		// sequences/s on 16 idle cores and is expected to be capped). Share is the
+		// cumulative deadline; unused time rolls over to the next alphabet.
 		return []config{
-			{Name: "t1-2x2x5-d6", S: 2, Q: 2, Classes: all5, Depth: 6, Share: 6 * time.Minute, Track: 8},
-			{Name: "t2-3x2x5-d5", S: 3, Q: 2, Classes: all5, Depth: 5, Share: 10 * time.Minute, Track: 8},
-			{Name: "t3-3x3x5-d4", S: 3, Q: 3, Classes: all5, Depth: 4, Share: 12 * time.Minute, Track: 4},
-			{Name: "t4-2x2x3-d7", S: 2, Q: 2, Classes: []int{clsConsensus, clsValset, clsOther}, Depth: 7, Share: 19 * time.Minute, Track: 8},
-			{Name: "t5-3x3x3-d5", S: 3, Q: 3, Classes: []int{clsScheduler, clsEvm, clsOther}, Depth: 5, Share: 23 * time.Minute, Track: 8},
+			{Name: "t1-3x3x5-d4", S: 3, Q: 3, Classes: all5, Depth: 4, Share: 3 * time.Minute, Track: 4},
+			{Name: "t2-3x2x5-d5", S: 3, Q: 2, Classes: all5, Depth: 5, Share: 8 * time.Minute, Track: 8},
+			{Name: "t3-2x2x5-d6", S: 2, Q: 2, Classes: all5, Depth: 6, Share: 13 * time.Minute, Track: 8},
+			{Name: "t4-3x3x3-d5", S: 3, Q: 3, Classes: []int{clsScheduler, clsEvm, clsOther}, Depth: 5, Share: 19 * time.Minute, Track: 8},
+			{Name: "t5-2x2x3-d7", S: 2, Q: 2, Classes: []int{clsConsensus, clsValset, clsOther}, Depth: 7, Share: 25*time.Minute + 30*time.Second, Track: 8},
 			{Name: "t6-3x3x5-d5", S: 3, Q: 3, Classes: all5, Depth: 5, Share: 26*time.Minute + 30*time.Second, Track: 4, From: 5},
 		}
 	}
